@@ -33,7 +33,11 @@ def conc(words, seps, cont, inner=False, v=0):
         sep = {"s1": " ", "s2": ("  ", "   ", " " * 12)[(g + v) % 3], "nl": "\n" + cp, "nli": "\n" + cp + "   ", "nll": "\n"}[s]
         out.append(sep)
         out.append(CONC[words[g + 1]][(g + 1 + v) % 5])
-    return "".join(out) + "\n"
+    text = "".join(out) + "\n"
+    if v == 1:
+        # a no-break space inside the atomic constructs: whatever the formatter makes of it, it makes the same of it in every layout
+        text = text.replace("`c d`", "`c\u00a0d`").replace("[l m]", "[l\u00a0m]").replace("`e f`", "`e\u00a0f`").replace("[x y]", "[x\u00a0y]").replace("`g h`", "`g\u00a0h`")
+    return text
 
 
 def _fmt(job):
